@@ -106,13 +106,13 @@ func (e *C01) getPlan(tier string, seed uint64) *c01Plan {
 func (e *C01) ID() string    { return "C01" }
 func (e *C01) Level() string { return "fault_enumeration" }
 func (e *C01) Rule() string {
-	return "cases: (a) for every corpus/generated file x natural entry point: every cut point k (dense prefix, every walker-found structure boundary +-1, seeded sample, len-1, len) x 5 terminal reader behaviours (EOF, data+EOF, injected error, ErrUnexpectedEOF, failing Seek); (b) structure-aware malformations (1-3 operators at walker-found size/count/offset/type fields, flips, deletions, duplications, splices) run through the file's natural entries plus two random entries and random reader kinds / chunk schedules; (c) random byte strings of length 0..4096 through every entry; (d) grammar-based shapes: tightly packed trees of the box types the ISOBMFF reader dispatches on (meta/hdlr/pitm/iinf+infe/iloc/iref/iprp, moov/Canon uuid/CNCV/CTBO/CMT1-4/THMB, PRVW) and small TIFF directories over the tags the Exif reader interprets, with boundary-biased sizes, counts, versions, field widths, types and offsets in several cooperating fields at once, through the family's natural entries with clean and faulting readers; every 40th shape is one tiny unit (a minimal box of a known type in a looping context, APP1 segment, PNG chunk, IFD entry, one-entry IFD chain, XMP token) tiled to 20..300 KB, another 40th is 1..2 MB of one loop-targeted pattern (SOI runs, fill bytes, zero-size boxes, partial signatures), run with the goroutine stack limit lowered from 1 GB to 32 MB. A call is non-trivial when it consumed more than 24 bytes or returned a non-sniffing error; distinct = distinct (entry, outcome class with digits stripped, log4 bucket of bytes delivered)."
+	return "cases: (a) for every corpus/generated file x natural entry point: every cut point k (dense prefix, every walker-found structure boundary +-1, seeded sample, len-1, len) x 5 terminal reader behaviours (EOF, data+EOF, injected error, ErrUnexpectedEOF, failing Seek); (b) structure-aware malformations (1-3 operators at walker-found size/count/offset/type fields, flips, deletions, duplications, splices) run through the file's natural entries plus two random entries and random reader kinds / chunk schedules; (c) random byte strings of length 0..4096 through every entry; (d) grammar-based shapes: tightly packed trees of the box types the ISOBMFF reader dispatches on (meta/hdlr/pitm/iinf+infe/iloc/iref/iprp, moov/Canon uuid/CNCV/CTBO/CMT1-4/THMB, PRVW) and small TIFF directories over the tags the Exif reader interprets, with boundary-biased sizes, counts, versions, field widths, types and offsets in several cooperating fields at once, through the family's natural entries with clean and faulting readers; every 40th shape is one tiny unit (a minimal box of a known type in a looping context, APP1 segment, PNG chunk, IFD entry, one-entry IFD chain, XMP token) tiled to 20..300 KB, another 40th is 1..2 MB of one loop-targeted pattern (SOI runs, fill bytes, zero-size boxes, partial signatures), run with the goroutine stack limit lowered from 1 GB to 16 MB. A call is non-trivial when it consumed more than 24 bytes or returned a non-sniffing error; distinct = distinct (entry, outcome class with digits stripped, log4 bucket of bytes delivered)."
 }
 func (e *C01) Assumptions() []string {
 	return []string{"panics and fatal errors are observed by recover() in the worker and by the exit status/stderr of the isolated worker process",
 		"repository sample files are capped at 96 KiB (their metadata is at the front)",
 		"panics the library itself converts to errors with recover() count as returned (tallied as library_recovered_panics)",
-		"the worker's stack limit is 32 MB instead of Go's default 1 GB: a decode that needs more than 32 MB of stack for an input of at most 2 MB grows its stack with the input and would overflow the default limit on an input 30 times larger; the pinned code uses a few KB"}
+		"the worker's stack limit is 16 MB instead of Go's default 1 GB: a decode that needs more than 16 MB of stack for an input of at most 2 MB grows its stack with the input and would overflow the default limit on an input 60 times larger; the pinned code uses a few KB"}
 }
 func (e *C01) Plan(tier string, seed uint64) int {
 	p := e.getPlan(tier, seed)
@@ -120,9 +120,9 @@ func (e *C01) Plan(tier string, seed uint64) int {
 }
 func (e *C01) MinNontrivial(tier string) int { return 40 }
 
-// InitWorker lowers the goroutine stack limit from 1 GB to 32 MB: stack use that grows with the
+// InitWorker lowers the goroutine stack limit from 1 GB to 16 MB: stack use that grows with the
 // input then overflows (a fatal error the driver attributes to the case) on megabyte inputs.
-func (e *C01) InitWorker(c *core.Ctx) { debug.SetMaxStack(32 << 20) }
+func (e *C01) InitWorker(c *core.Ctx) { debug.SetMaxStack(16 << 20) }
 
 func c01Call(c *core.Ctx, ent Entry, rs *mon.RS, what string) string {
 	var o string
@@ -216,8 +216,8 @@ func (e *C01) Run(c *core.Ctx, idx int) {
 		}
 		if idx%40 == 27 {
 			// megabytes of one loop-targeted pattern (runs of SOI markers, fill bytes, zero-size
-			// boxes, ...): with the worker's stack limit lowered to 32 MB, a scanner that recurses
-			// once per skipped unit dies here instead of at 30 times the size
+			// boxes, ...): with the worker's stack limit lowered to 16 MB, a scanner that recurses
+			// once per skipped unit dies here instead of at 60 times the size
 			data = gen.LoopShapes(r, r.Range(1<<20, 2<<20))
 			desc = fmt.Sprintf("loopshape len=%d head=%x", len(data), data[:12])
 		}
